@@ -7,6 +7,8 @@ import NflowsModel.Lemmas.RQInverseWhole
 import Mathlib.Tactic
 import NflowsModel.Lemmas.CubicWhole
 import NflowsModel.Lemmas.QuadWhole
+import NflowsModel.Lemmas.TailsWhole
+import NflowsModel.Lemmas.QuadInverseWhole
 /-!
 # C17 — out-of-domain inputs are rejected, in-domain inputs never fail
 
@@ -158,5 +160,21 @@ theorem quad_tails_one_bin_counterexample (e : Float → ℝ) (c : QCfg) (w x : 
     (hgW : ¬ (c.minW * ([w] : List ℝ).length.toFloat > 1.0)) (hgH : ¬ (c.minH * ([w] : List ℝ).length.toFloat > 1.0)) :
     quadSpline (NF.realX e) c [w] [] false x = .error .indexError :=
   QuadWhole.tails_one_bin_error w x hx0 hx1 hgW hgH
+
+/-- **RQ with linear tails accepts every real input**, both directions -/
+theorem rq_tails_total (e : Float → ℝ) (tb minW minH minD beta : Float) (uw uh ud : List ℝ)
+    (hv : TailsWhole.RQTailsValid e tb minW minH minD beta uw uh ud) (x : ℝ) :
+    (∃ r, rqSplineTails (NF.realX e) tb minW minH minD beta uw uh ud false x = .ok r) ∧
+    (∃ r, rqSplineTails (NF.realX e) tb minW minH minD beta uw uh ud true x = .ok r) :=
+  ⟨⟨_, TailsWhole.tails_total hv x⟩, ⟨_, TailsWhole.tails_total_inv hv x⟩⟩
+
+/-- **quadratic inverse: in-domain inputs never fail** (the stable root is well defined also at flat bins), and outside the
+    domain the program raises the domain error -/
+theorem quad_inverse_in_domain_total (e : Float → ℝ) (c : QCfg) (uw uh : List ℝ)
+    (hv : QuadWhole.QuadValid e c uw uh ∨ QuadWhole.QuadValidT e c uw uh) (y : ℝ) (hy0 : e c.box.bottom ≤ y) (hy1 : y ≤ e c.box.top) :
+    ∃ r, quadSpline (NF.realX e) c uw uh true y = .ok r := by
+  rcases hv with hv | hv
+  · exact ⟨_, QuadInverseWhole.exec_ok hv y hy0 hy1⟩
+  · exact ⟨_, QuadInverseWhole.exec_ok_T hv y hy0 hy1⟩
 
 end Properties.C17
